@@ -234,8 +234,7 @@ func UintToBigInt(value uint64) *big.Int {
 		return big.NewInt(int64(value))
 	}
 
-	bi := big.NewInt(int64(value >> 1))
-	return bi.Lsh(bi, 1)
+	return new(big.Int).SetUint64(value)
 }
 
 func UintToInt(value uint64) (int64, error) {
